@@ -7,6 +7,7 @@ structure St where
   alph : List Char := []
   seqs : List (List Nat) := []
   trace : Trace := []
+  k : Nat := 0      -- alphabet size (`setc`: huge generic alphabet whose symbols are the codes themselves)
 
 def parseEntry (s : String) : Option (Option Nat) :=
   if s == "-" then some none else s.toNat?.map some
@@ -126,8 +127,20 @@ def step (st : St) (line : String) : St × String :=
   | ["set", alph, seqs, tr] =>
     let alph := alph.toList
     match (parseStrs seqs).mapM (encode alph), parseTrace tr with
-    | some ss, some t => ({ alph := alph, seqs := ss, trace := t }, "ok")
+    | some ss, some t => ({ alph := alph, seqs := ss, trace := t, k := alph.length }, "ok")
     | _, _ => (st, "bad-op")
+  | ["setc", k, seqs, tr] =>
+    match k.toNat?, parseCodeSeqs seqs, parseTrace tr with
+    | some k, some ss, some t => ({ alph := [], seqs := ss, trace := t, k := k }, "ok")
+    | _, _, _ => (st, "bad-op")
+  | ["symcodes"] =>
+    -- `get_symbols` for an alphabet whose symbol `i` is the integer `i`: the codes, AlphabetError outside the alphabet
+    let r := match getCodes st.seqs st.trace with
+      | .error e => .error e
+      | .ok codes => mapE (fun row => mapE (fun x => match x with
+          | none => .ok none
+          | some c => if c < st.k then .ok (some c) else .error .alphabetError) row) codes
+    (st, showE showRows r)
   | ["strings"] =>
     (st, showE showStrs (gappedStrings (st.seqs.map (decodeSeq st.alph)) st.trace))
   | ["fromstrings", s] => (st, showE showTrace (traceFromStrings (parseStrs s)))
